@@ -22,7 +22,9 @@ RULE = ('Hypothesis-generated world descriptions: 0-4 processors and 0-5 entitie
         'references ${mod.attr} (also to falsy objects: 0, None, False, empty list, empty string), $res{p.q}, '
         '$handle{p.q} to fixture names and to paths of a generated resource '
         'tree. Two drivers: populate_world_from_dict on a dict with real types, and WorldFromFileHandle on a JSON '
-        'file in a per-case temp dir with the handle stored under a key of depth 1-3. Oracle: reference '
+        'file in a per-case temp dir with the handle stored under a key of depth 1-3 (loaded, cleared, resources '
+        'replaced and loaded again; in some cases user code fails once - a described constructor or the load of a '
+        'referenced resource raises - and the program asks the same handle again). Oracle: reference '
         'interpretation of the description (processor types in order after the defaults, entities by id or '
         'unique tag, constructor arguments equal / references identical, dispatching disabled and no callback '
         'on return, after enabling on_add then on_world_load once per handler component with the real entity, '
@@ -50,11 +52,16 @@ KWNAMES = ['x', 'y', 'name']
 
 
 class ResHandle(desper.Handle):
+    fail_next = False
+
     def __init__(self, tag):
         self.tag = tag
         self.res = ('resource', tag)
 
     def load(self):
+        if self.fail_next:
+            self.fail_next = False
+            raise fx.TransientError('resource %s failed to load' % self.tag)
         return self.res
 
 
@@ -100,6 +107,7 @@ def strategy():
     return st.fixed_dictionaries({
         'driver': st.integers(0, 2).map(lambda k: 'dict' if k == 0 else 'file'),
         'key': st.integers(0, 2),
+        'flaky': st.integers(0, 3),
         'processors': st.lists(item, max_size=4),
         'entities': st.lists(entity, max_size=5)})
 
@@ -187,10 +195,28 @@ def _run(case, tmp):
         handle = desper.WorldFromFileHandle(path)
         key = WORLD_KEYS[case['key']]
         root[key] = handle
-        try:
-            world = handle()
-        except Exception as exc:
-            viol('loading_the_world_raised', exception=repr(exc)[:600], key=key)
+        # user code that fails once (a constructor, the load of a referenced resource): the program catches the
+        # exception and asks the same handle again - it gets the described world, not a left-over
+        flaky = case.get('flaky', 0)
+        fx.FAIL['ctor'] = 1 if flaky == 2 else 0
+        if flaky == 3:
+            for h in res.values():
+                h.clear()
+                h.fail_next = True
+        world = None
+        for attempt in range(2 + len(res)):
+            try:
+                world = handle()
+                break
+            except fx.TransientError:
+                facts['load_failed_then_retried'] += 1
+            except Exception as exc:
+                viol('loading_the_world_raised', exception=repr(exc)[:600], key=key)
+        fx.FAIL['ctor'] = 0
+        for h in res.values():
+            h.fail_next = False
+        if not isinstance(world, desper.World):
+            viol('handle_did_not_yield_a_world', got=repr(world), failed_attempts=facts['load_failed_then_retried'])
         if world.dispatch_enabled:
             viol('world_returned_with_dispatching_enabled')
         if fx.LOG:
